@@ -2,6 +2,7 @@
    Only the property theorems, each closed by [exact] of a lemma of Proofs/FlowProofs.v. *)
 From Coq Require Import List.
 Require Import BertE.Model.Git BertE.Model.Flow BertE.Proofs.GitProofs BertE.Proofs.FlowProofs.
+Require Import BertE.Model.Queues BertE.Proofs.QueueProofs.
 Import ListNotations.
 
 (* The direct merge of a pull request (merge_integration_branches): for any commit graph, any cascade, any
@@ -65,3 +66,57 @@ Theorem C01_merge_contains :
   wf_store s' /\ extends s s' /\ t < length s' /\ Anc s' head t /\ (forall x, In x srcs -> Anc s' x t).
 Proof. exact merge_contains. Qed.
 Print Assumptions C01_merge_contains.
+
+(* The queue invariants that C01_merge_queues assumes are Bert-E's own work.  Starting from a clone with the
+   inclusion and a well-formed queue description (QueuesWF: per version the master queue is the newest entry
+   and contains the destination, entries are ordered by inclusion, the same pull request is ordered along the
+   cascade, a pull request queued on a version is queued on every later one - it holds of empty queues:
+   queues_wf_empty), any number of queueing steps (get_queue_branch(create), add_to_queue of a pull request
+   newer than the queued ones whose targets are closed upwards and in cascade order: add_to_queue_preserves_wf)
+   followed by merge_queues of the pull requests of rank <= k: the merge succeeds, inclusion is kept, every
+   moved destination lands exactly on the newest selected queue commit of its version, nothing else moves, no
+   commit is created, and the queueing steps moved nothing but q/* names.  Any commit graph, any number of
+   versions / pull requests, any strategy mix. *)
+Theorem C01_queue_cycle :
+  forall (later : name -> name -> Prop) c qs c1 qs1 k,
+  wf_clone c -> Incl later c -> QueuesWF later c qs -> queue_adds later c qs c1 qs1 ->
+  exists c2, merge_queues c1 (sel_of k qs1) = Some c2 /\
+  Incl later c2 /\
+  (forall d q, In (d, q) (sel_of k qs1) ->
+     lookup (refs c2) d = lookup (refs c1) q /\
+     exists v e, In v qs1 /\ vdest v = d /\ In e (ventries v) /\ snd e = q /\ fst e <= k) /\
+  (forall n, ~ In n (map fst (sel_of k qs1)) -> lookup (refs c2) n = lookup (refs c1) n) /\
+  st c2 = st c1 /\
+  (forall n, ~ In n (queue_names qs1) -> lookup (refs c1) n = lookup (refs c) n).
+Proof. exact queue_cycle_incl. Qed.
+Print Assumptions C01_queue_cycle.
+
+(* What one add_to_queue does to the clone, for triples (master queue, integration branch, new
+   queue-integration branch) with pairwise distinct queue names: (a) nothing but the master queues and the new
+   branches moves, and what exists only moves forward; (b) each new queue-integration branch is the tip of its
+   master queue; (c) it contains its integration branch, as it was; (e) whatever was contained in the master
+   queue (the destination, the previous queue-integration branch) is contained in it; (d) the new branches are
+   ordered along the cascade.  The conclusions (b)-(e) are checked on the real repository after every job that
+   ends Queued (harness/lib/sysrun.py). *)
+Theorem C01_add_to_queue :
+  forall sg c triples c',
+  wf_clone c -> aq_names_ok triples -> add_to_queue sg c triples = Some c' ->
+  grows_except (map ti triples) c c' /\
+  (forall n, ~ In n (map tq triples) -> ~ In n (map ti triples) -> lookup (refs c') n = lookup (refs c) n) /\
+  (forall q w qi, In (q, w, qi) triples ->
+     lookup (refs c') qi = lookup (refs c') q /\
+     Below c' w qi /\ lookup (refs c') w = lookup (refs c) w /\
+     (forall x, ~ In x (map tq triples) -> ~ In x (map ti triples) -> Below c x q -> Below c' x qi)) /\
+  ForallOrdPairs (Below c') (map ti triples).
+Proof. exact add_to_queue_spec. Qed.
+Print Assumptions C01_add_to_queue.
+
+(* add_to_queue of a pull request newer than everything queued preserves the queue invariant. *)
+Theorem C01_add_to_queue_preserves_queues :
+  forall (later : name -> name -> Prop) sg c qs p adds triples c',
+  wf_clone c -> QueuesWF later c qs -> add_ok later c qs p adds ->
+  triples_of qs adds = Some triples -> add_to_queue sg c triples = Some c' ->
+  wf_clone c' /\ QueuesWF later c' (enqueue p adds qs) /\ extends (st c) (st c') /\
+  (forall n, ~ In n (queue_names (enqueue p adds qs)) -> lookup (refs c') n = lookup (refs c) n).
+Proof. exact add_to_queue_preserves_wf. Qed.
+Print Assumptions C01_add_to_queue_preserves_queues.
